@@ -304,7 +304,17 @@ func render(poll, opt bool, ops []histOp) string {
 			}
 		}
 	}
+	// the marshaler LIST (WithMarshalers): the first whole-body binding again with an explicit Content-Type
+	for _, k := range h {
+		q := strings.Split(k, "~")
+		if q[2] == "*" && q[0] == "POST" {
+			addH(q[0], q[1], "*j")
+			addH(q[0], q[1], "*k")
+			break
+		}
+	}
 	// negative / boundary probes
+	addH("POST", "/stk.a.Lib/Get", "*") // no default binding for a method that has bindings
 	addG("/stk.nope.None/M")
 	addG("/stk.a.Lib/Get/extra") // the method is everything after the first slash
 	addH("GET", "/v1/none/x", "-")
@@ -346,6 +356,9 @@ func fixed() []string {
 		render(false, true, []histOp{F("a"), O("a"), A("a", "none", "lib0"), A("a", "v1", "shop0"), R("a"), A("a", "va", "shop1", "misc1"), A("a", "v1", "lib0"), R("zz")}),
 		// polling on: a live contract change is picked up by the next poll on BOTH routers
 		render(true, true, []histOp{A("a", "v1", "lib0"), U("a", "lib1", "misc1"), R("a")}),
+		// polling on, contested service: the owner's changed contract releases it (nobody inherits), the other
+		// claimant gets it only with ITS next changed contract
+		render(true, false, []histOp{A("a", "v1", "lib0"), A("b", "both", "lib1", "shop0"), U("a", "misc0"), U("b", "lib0"), R("a"), R("b")}),
 		// default options everywhere (NewForwarder(), default transcoder), v1alpha only
 		render(true, false, []histOp{A("x", "va", "misc0", "shop1"), A("y", "va", "lib1"), R("x"), P}),
 	}
@@ -418,9 +431,9 @@ func (Area) Gen(r *rand.Rand, tier string, emit func(string)) {
 	for _, l := range fixed() {
 		emit(l)
 	}
-	n, maxOps := 4, 6
+	n, maxOps := 10, 8
 	if tier == "thorough" {
-		n, maxOps = 60, 10
+		n, maxOps = 120, 10
 	}
 	for i := 0; i < n; i++ {
 		emit(randomHistory(r, maxOps, true))
